@@ -1,8 +1,9 @@
 import DryocVerif.Proofs.RawExtra
 /-
 C03 / C04 helper lemmas: the code-shaped `push` (`pushRaw`, `objPushRaw` of `Model/SecretStreamRaw.lean`)
-against the total model `push`, and the window of message lengths in which the ChaCha20 crate refuses the key
-stream although the guard of the source lets the message through.  Core only.
+against the total models `push` / `pushChecked` — since fix E16 for every message a slice can hold — and, for
+the code before that fix (`pushRawOld16`, `objPushRawOld16`), the window of message lengths in which the
+ChaCha20 crate refuses the key stream although the old guard of the source let the message through.  Core only.
 -/
 namespace DryocVerif.Proofs.SecretStream
 open DryocVerif DryocVerif.Model.Utils DryocVerif.Model.SecretStream DryocVerif.Model.Raw DryocVerif.Proofs.Raw
@@ -51,20 +52,23 @@ theorem buf_split (ct : Bytes) (n : Nat) (h : ct.length = n + 17) :
     · simp at h ⊢; omega
     · simp at h ⊢; omega
 
-/-- the body up to the second key-stream request: every checked operation in front of
-`cipher.seek(128); cipher.apply_keystream(&mut ciphertext[1..1 + mlen])` succeeds, for every message the
-`MESSAGEBYTES_MAX` guard lets through — then the crate decides -/
-theorem pushRawBody_near_max (P : Prims) (s : State) (ct msg ad : Bytes) (tag : UInt8)
+/-- **pre-fix code (E16)**: the body up to the second key-stream request: every checked operation in front of
+`cipher.seek(128); cipher.apply_keystream(&mut ciphertext[1..1 + mlen])` succeeds, for every message the old
+`MESSAGEBYTES_MAX` guard let through — then the crate decides -/
+theorem pushRawBodyOld16_near_max (P : Prims) (s : State) (ct msg ad : Bytes) (tag : UInt8)
     (hl : ct.length = msg.length + 17)
     (h1 : STREAM_BODY_MAX < msg.length) (h2 : msg.length ≤ MESSAGEBYTES_MAX_RAW) :
-    pushRawBody P s ct msg ad tag = .panic := by
+    pushRawBodyOld16 P s ct msg ad tag = .panic := by
   have hB := STREAM_BODY_MAX_eq
   have hM := MESSAGEBYTES_MAX_RAW_eq
   obtain ⟨c0, mid, tail, rfl, hmid, htail⟩ := buf_split ct msg.length hl
-  unfold pushRawBody
+  have hmg : pushMaxGuard false msg.length = Outcome.ok () := by
+    rw [pushMaxGuard_eq, pushMax_false, if_neg (by omega)]
+  unfold pushRawBodyOld16 pushRawBodyWith
   simp only []
+  rw [hmg]
   unfold ABYTES
-  rw [checkedAdd_ok (by omega), ok_bind, errIf_neg (by omega), ok_bind, errIf_neg (by omega), ok_bind,
+  rw [checkedAdd_ok (by omega), ok_bind, errIf_neg (by omega), ok_bind, ok_bind,
     keystream_ok P s (by omega), ok_bind, sliceTo_ok (by rw [zeros_length]; exact pad16_le _), ok_bind,
     keystream_ok P s (by omega), ok_bind, setIndex_ok' _ (by simp), ok_bind, checkedAdd_ok (by omega)]
   simp only [ok_bind, List.set_cons_zero]
@@ -76,17 +80,26 @@ theorem pushRawBody_near_max (P : Prims) (s : State) (ct msg ad : Bytes) (tag : 
     slice_append3 [b0] msg tail 1 (1 + msg.length) rfl (by simp), ok_bind,
     keystream_panic P s (by omega), panic_bind]
 
-theorem pushRawBody_main (P : Prims) (hP : WF P) (s : State) (ct msg ad : Bytes) (tag : UInt8)
+/-- the whole body (current source `f = true`, before fix E16 `f = false`) on a buffer of the right size, for
+every message up to the crate's key-stream limit: every checked operation succeeds and the result is the one
+of the total model -/
+theorem pushRawBodyWith_main (f : Bool) (P : Prims) (hP : WF P) (s : State) (ct msg ad : Bytes) (tag : UInt8)
     (hl : ct.length = msg.length + 17) (h1 : msg.length ≤ STREAM_BODY_MAX) :
-    pushRawBody P s ct msg ad tag = push P s (msg.length + 17) msg ad tag := by
+    pushRawBodyWith f P s ct msg ad tag = push P s (msg.length + 17) msg ad tag := by
   have hB := STREAM_BODY_MAX_eq
   have hM := MESSAGEBYTES_MAX_RAW_eq
   obtain ⟨c0, mid, tail, rfl, hmid, htail⟩ := buf_split ct msg.length hl
+  have hmg : pushMaxGuard f msg.length = Outcome.ok () := by
+    rw [pushMaxGuard_eq, if_neg]
+    cases f
+    · rw [pushMax_false]; omega
+    · rw [pushMax_true]; omega
   rw [push_eq]
-  unfold pushRawBody
+  unfold pushRawBodyWith
   simp only []
+  rw [hmg]
   unfold ABYTES
-  rw [checkedAdd_ok (by omega), ok_bind, errIf_neg (by omega), ok_bind, errIf_neg (by omega), ok_bind,
+  rw [checkedAdd_ok (by omega), ok_bind, errIf_neg (by omega), ok_bind, ok_bind,
     keystream_ok P s (by omega), ok_bind, sliceTo_ok (by rw [zeros_length]; exact pad16_le _), ok_bind,
     keystream_ok P s (by omega), ok_bind, setIndex_ok' _ (by simp), ok_bind, checkedAdd_ok (by omega)]
   simp only [ok_bind, List.set_cons_zero]
@@ -132,54 +145,173 @@ theorem pushRawBody_main (P : Prims) (hP : WF P) (s : State) (ct msg ad : Bytes)
   rw [hmacin]
   rfl
 
-/-- **the code-shaped `push` is the total model** for every message of at most `STREAM_BODY_MAX = 64·(2^32 − 3)`
-bytes, every ciphertext buffer (a wrong size is the `Err` of both), AD, tag byte and state.  `WF P`: the
-key stream has the requested length and the authenticator 16 bytes (array types in the Rust). -/
-theorem pushRaw_eq_push (P : Prims) (hP : WF P) (s : State) (ct msg ad : Bytes) (tag : UInt8)
-    (h1 : msg.length ≤ STREAM_BODY_MAX) :
-    pushRaw P s ct msg ad tag = push P s ct.length msg ad tag := by
-  have hB := STREAM_BODY_MAX_eq
-  by_cases hl : ct.length = msg.length + 17
-  · rw [hl]; exact pushRawBody_main P hP s ct msg ad tag hl h1
-  · unfold pushRaw pushRawBody push
-    simp only []
-    unfold ABYTES
-    rw [checkedAdd_ok (by omega), ok_bind, errIf_pos hl, err_bind, if_pos hl]
+theorem pushRawBody_main (P : Prims) (hP : WF P) (s : State) (ct msg ad : Bytes) (tag : UInt8)
+    (hl : ct.length = msg.length + 17) (h1 : msg.length ≤ STREAM_BODY_MAX) :
+    pushRawBody P s ct msg ad tag = push P s (msg.length + 17) msg ad tag :=
+  pushRawBodyWith_main true P hP s ct msg ad tag hl h1
 
-/-- a ciphertext buffer of the wrong size is an `Err` (for any message a slice can hold) -/
-theorem pushRaw_wrong_len (P : Prims) (s : State) (ct msg ad : Bytes) (tag : UInt8)
+/-- the two guards of the body (either version), for any message a slice can hold -/
+theorem pushRawBodyWith_wrong_len (f : Bool) (P : Prims) (s : State) (ct msg ad : Bytes) (tag : UInt8)
     (hm : msg.length + 17 < 2 ^ 64) (hl : ct.length ≠ msg.length + 17) :
-    pushRaw P s ct msg ad tag = .err := by
-  unfold pushRaw pushRawBody
+    pushRawBodyWith f P s ct msg ad tag = .err := by
+  unfold pushRawBodyWith
   simp only []
   unfold ABYTES
   rw [checkedAdd_ok hm, ok_bind, errIf_pos hl, err_bind]
 
-/-- the `MESSAGEBYTES_MAX` guard -/
-theorem pushRaw_too_long (P : Prims) (s : State) (ct msg ad : Bytes) (tag : UInt8)
-    (hm : msg.length + 17 < 2 ^ 64) (h : MESSAGEBYTES_MAX_RAW < msg.length) :
-    pushRaw P s ct msg ad tag = .err := by
-  unfold pushRaw pushRawBody
+theorem pushRawBodyWith_too_long (f : Bool) (P : Prims) (s : State) (ct msg ad : Bytes) (tag : UInt8)
+    (hm : msg.length + 17 < 2 ^ 64) (h : pushMax f < msg.length) :
+    pushRawBodyWith f P s ct msg ad tag = .err := by
+  have hmg : pushMaxGuard f msg.length = Outcome.err := by rw [pushMaxGuard_eq, if_pos h]
+  unfold pushRawBodyWith
   simp only []
+  rw [hmg]
   unfold ABYTES
   rw [checkedAdd_ok hm, ok_bind]
   by_cases hl : ct.length ≠ msg.length + 17
   · rw [errIf_pos hl, err_bind]
-  · rw [errIf_neg hl, ok_bind, errIf_pos h, err_bind]
+  · rw [errIf_neg hl, ok_bind, err_bind]
 
-/-- **latent defect**: for the 64 message lengths `64·(2^32 − 3) < len ≤ 64·(2^32 − 2)` the guard of the
-source lets the message through and `cipher.apply_keystream(&mut ciphertext[1..1 + mlen])` panics (after
-`ciphertext[0]` and the message copy have been written, before the state is touched) -/
-theorem pushRaw_panics_near_max (P : Prims) (s : State) (ct msg ad : Bytes) (tag : UInt8)
-    (hl : ct.length = msg.length + 17)
-    (h1 : STREAM_BODY_MAX < msg.length) (h2 : msg.length ≤ MESSAGEBYTES_MAX_RAW) :
-    pushRaw P s ct msg ad tag = .panic :=
-  pushRawBody_near_max P s ct msg ad tag hl h1 h2
+/-- `message.len() + ABYTES` overflows `usize` (impossible for a Rust slice, whose length is at most
+`isize::MAX`; possible for a list): the first statement panics, in either version -/
+theorem pushRawBodyWith_overflow (f : Bool) (P : Prims) (s : State) (ct msg ad : Bytes) (tag : UInt8)
+    (hm : 2 ^ 64 ≤ msg.length + 17) : pushRawBodyWith f P s ct msg ad tag = .panic := by
+  unfold pushRawBodyWith
+  simp only []
+  unfold ABYTES checkedAdd USIZE
+  rw [if_neg (by omega), panic_bind]
+
+/-- **the code-shaped `push` is the guarded total model `pushChecked`, for every message a slice can hold**
+(`message.len() + 17 < 2^64`; a Rust slice has at most `isize::MAX = 2^63 − 1` bytes), every ciphertext buffer
+(a wrong size is the `Err` of both), AD, tag byte and state.  `WF P`: the key stream has the requested length
+and the authenticator 16 bytes (array types in the Rust). -/
+theorem pushRaw_eq_pushChecked (P : Prims) (hP : WF P) (s : State) (ct msg ad : Bytes) (tag : UInt8)
+    (hm : msg.length + 17 < 2 ^ 64) :
+    pushRaw P s ct msg ad tag = pushChecked P s ct.length msg ad tag := by
+  have hB := STREAM_BODY_MAX_eq
+  have hK := KEYSTREAM_MESSAGEBYTES_MAX_eq
+  unfold pushRaw pushRawBody pushChecked
+  unfold ABYTES
+  by_cases hl : ct.length = msg.length + 17
+  · rw [if_neg (by omega)]
+    by_cases h1 : msg.length > KEYSTREAM_MESSAGEBYTES_MAX
+    · rw [if_pos h1, pushRawBodyWith_too_long true P s ct msg ad tag hm (by rw [pushMax_true]; omega)]
+    · rw [if_neg h1, hl]; exact pushRawBodyWith_main true P hP s ct msg ad tag hl (by omega)
+  · rw [if_pos hl, pushRawBodyWith_wrong_len true P s ct msg ad tag hm hl]
+
+/-- **the code-shaped `push` is the guard-free total model** for every message of at most
+`STREAM_BODY_MAX = 64·(2^32 − 3)` bytes, i.e. every message the length guard lets through.  The hypothesis is
+needed only because `push` has no length guard (beyond it `pushRaw` is an `Err`, `pushRaw_err_near_max`, and
+`push` computes); with the guard in the model: `pushRaw_eq_pushChecked`. -/
+theorem pushRaw_eq_push (P : Prims) (hP : WF P) (s : State) (ct msg ad : Bytes) (tag : UInt8)
+    (h1 : msg.length ≤ STREAM_BODY_MAX) :
+    pushRaw P s ct msg ad tag = push P s ct.length msg ad tag := by
+  have hB := STREAM_BODY_MAX_eq
+  rw [pushRaw_eq_pushChecked P hP s ct msg ad tag (by omega),
+    pushChecked_eq_push P s _ msg ad tag (by rw [KEYSTREAM_MESSAGEBYTES_MAX_eq]; exact h1)]
+
+/-- a ciphertext buffer of the wrong size is an `Err` (for any message a slice can hold) -/
+theorem pushRaw_wrong_len (P : Prims) (s : State) (ct msg ad : Bytes) (tag : UInt8)
+    (hm : msg.length + 17 < 2 ^ 64) (hl : ct.length ≠ msg.length + 17) :
+    pushRaw P s ct msg ad tag = .err :=
+  pushRawBodyWith_wrong_len true P s ct msg ad tag hm hl
+
+/-- **fixed code (E16): the length guard.**  A message of more than `STREAM_BODY_MAX = 64·(2^32 − 3)` bytes —
+the 64 lengths on which the code before the fix panicked included — is an `Err`, whatever the buffer
+(`msg.len() + 17 < 2^64`: a fact about slices).  Nothing has been written at that point. -/
+theorem pushRaw_err_near_max (P : Prims) (s : State) (ct msg ad : Bytes) (tag : UInt8)
+    (hm : msg.length + 17 < 2 ^ 64) (h : STREAM_BODY_MAX < msg.length) :
+    pushRaw P s ct msg ad tag = .err :=
+  pushRawBodyWith_too_long true P s ct msg ad tag hm (by rw [pushMax_true, ← STREAM_BODY_MAX_eq]; exact h)
+
+theorem pushRaw_too_long (P : Prims) (s : State) (ct msg ad : Bytes) (tag : UInt8)
+    (hm : msg.length + 17 < 2 ^ 64) (h : STREAM_BODY_MAX < msg.length) :
+    pushRaw P s ct msg ad tag = .err :=
+  pushRaw_err_near_max P s ct msg ad tag hm h
 
 /-- the classic `push`, as written, on a buffer of the right size: `Ok` exactly up to the crate's limit -/
 theorem pushRaw_ok_iff (P : Prims) (hP : WF P) (s : State) (ct msg ad : Bytes) (tag : UInt8)
     (hl : ct.length = msg.length + 17) :
     (∃ c s', pushRaw P s ct msg ad tag = .ok (c, s')) ↔ msg.length ≤ STREAM_BODY_MAX := by
+  have hB := STREAM_BODY_MAX_eq
+  constructor
+  · rintro ⟨c, s', h⟩
+    apply Classical.byContradiction
+    intro hn
+    by_cases hm : msg.length + 17 < 2 ^ 64
+    · rw [pushRaw_err_near_max P s ct msg ad tag hm (by omega)] at h; cases h
+    · unfold pushRaw pushRawBody at h
+      rw [pushRawBodyWith_overflow true P s ct msg ad tag (by omega)] at h; cases h
+  · intro h
+    rw [pushRaw_eq_push P hP s ct msg ad tag h, hl, push_eq]
+    exact ⟨_, _, rfl⟩
+
+/-- **the classic `push`, as written, cannot panic** on any message a slice can hold, whatever the buffer,
+AD, tag byte and state — no bound on the length other than `usize` arithmetic -/
+theorem pushRaw_never_panics (P : Prims) (hP : WF P) (s : State) (ct msg ad : Bytes) (tag : UInt8)
+    (hm : msg.length + 17 < 2 ^ 64) : pushRaw P s ct msg ad tag ≠ .panic := by
+  rw [pushRaw_eq_pushChecked P hP s ct msg ad tag hm]
+  unfold pushChecked
+  split; · simp
+  split; · simp
+  unfold push
+  split <;> simp
+
+/-- … and exactly then: the only panic branch left is the `usize` overflow of `message.len() + ABYTES`, which no
+Rust slice reaches -/
+theorem pushRaw_panic_iff (P : Prims) (hP : WF P) (s : State) (ct msg ad : Bytes) (tag : UInt8) :
+    pushRaw P s ct msg ad tag = .panic ↔ 2 ^ 64 ≤ msg.length + 17 := by
+  constructor
+  · intro h
+    apply Classical.byContradiction
+    intro hn
+    exact pushRaw_never_panics P hP s ct msg ad tag (by omega) h
+  · intro h
+    exact pushRawBodyWith_overflow true P s ct msg ad tag h
+
+/-! #### the classic `push` before fix E16 (counter-model `pushRawOld16`) -/
+
+/-- pre-fix code (E16): below the crate's limit the old code is the total model -/
+theorem pushRawOld16_eq_push (P : Prims) (hP : WF P) (s : State) (ct msg ad : Bytes) (tag : UInt8)
+    (h1 : msg.length ≤ STREAM_BODY_MAX) :
+    pushRawOld16 P s ct msg ad tag = push P s ct.length msg ad tag := by
+  have hB := STREAM_BODY_MAX_eq
+  unfold pushRawOld16 pushRawBodyOld16
+  by_cases hl : ct.length = msg.length + 17
+  · rw [hl]; exact pushRawBodyWith_main false P hP s ct msg ad tag hl h1
+  · rw [pushRawBodyWith_wrong_len false P s ct msg ad tag (by omega) hl]
+    unfold push ABYTES
+    rw [if_pos hl]
+
+/-- pre-fix code (E16): the old `MESSAGEBYTES_MAX` guard -/
+theorem pushRawOld16_too_long (P : Prims) (s : State) (ct msg ad : Bytes) (tag : UInt8)
+    (hm : msg.length + 17 < 2 ^ 64) (h : MESSAGEBYTES_MAX_RAW < msg.length) :
+    pushRawOld16 P s ct msg ad tag = .err :=
+  pushRawBodyWith_too_long false P s ct msg ad tag hm (by rw [pushMax_false, ← MESSAGEBYTES_MAX_RAW_eq]; exact h)
+
+/-- **pre-fix code (E16), the defect**: for the 64 message lengths `64·(2^32 − 3) < len ≤ 64·(2^32 − 2)` the old
+guard of the source let the message through and `cipher.apply_keystream(&mut ciphertext[1..1 + mlen])`
+panicked (after `ciphertext[0]` and the message copy had been written, before the state was touched).
+Demonstrated on the real code (harness op `stream_huge`). -/
+theorem pushRawOld16_panics_near_max (P : Prims) (s : State) (ct msg ad : Bytes) (tag : UInt8)
+    (hl : ct.length = msg.length + 17)
+    (h1 : STREAM_BODY_MAX < msg.length) (h2 : msg.length ≤ MESSAGEBYTES_MAX_RAW) :
+    pushRawOld16 P s ct msg ad tag = .panic :=
+  pushRawBodyOld16_near_max P s ct msg ad tag hl h1 h2
+
+/-- pre-fix code (E16): alias of `pushRawOld16_panics_near_max` under the name the theorem had when `pushRaw` still
+was that code — a statement about the counter-model `pushRawOld16` -/
+theorem pushRaw_panics_near_max (P : Prims) (s : State) (ct msg ad : Bytes) (tag : UInt8)
+    (hl : ct.length = msg.length + 17)
+    (h1 : STREAM_BODY_MAX < msg.length) (h2 : msg.length ≤ MESSAGEBYTES_MAX_RAW) :
+    pushRawOld16 P s ct msg ad tag = .panic :=
+  pushRawOld16_panics_near_max P s ct msg ad tag hl h1 h2
+
+/-- pre-fix code (E16): on a buffer of the right size, `Ok` exactly up to the crate's limit — the same set of
+lengths as the fixed code; what differs is what happens above (panic for 64 lengths instead of `Err`) -/
+theorem pushRawOld16_ok_iff (P : Prims) (hP : WF P) (s : State) (ct msg ad : Bytes) (tag : UInt8)
+    (hl : ct.length = msg.length + 17) :
+    (∃ c s', pushRawOld16 P s ct msg ad tag = .ok (c, s')) ↔ msg.length ≤ STREAM_BODY_MAX := by
   have hB := STREAM_BODY_MAX_eq
   have hM := MESSAGEBYTES_MAX_RAW_eq
   constructor
@@ -187,24 +319,38 @@ theorem pushRaw_ok_iff (P : Prims) (hP : WF P) (s : State) (ct msg ad : Bytes) (
     apply Classical.byContradiction
     intro hn
     by_cases h2 : msg.length ≤ MESSAGEBYTES_MAX_RAW
-    · rw [pushRaw_panics_near_max P s ct msg ad tag hl (by omega) h2] at h; cases h
+    · rw [pushRawOld16_panics_near_max P s ct msg ad tag hl (by omega) h2] at h; cases h
     · by_cases hm : msg.length + 17 < 2 ^ 64
-      · rw [pushRaw_too_long P s ct msg ad tag hm (by omega)] at h; cases h
-      · unfold pushRaw pushRawBody at h
-        simp only [] at h
-        unfold ABYTES checkedAdd USIZE at h
-        rw [if_neg hm, panic_bind] at h; cases h
+      · rw [pushRawOld16_too_long P s ct msg ad tag hm (by omega)] at h; cases h
+      · unfold pushRawOld16 pushRawBodyOld16 at h
+        rw [pushRawBodyWith_overflow false P s ct msg ad tag (by omega)] at h; cases h
   · intro h
-    rw [pushRaw_eq_push P hP s ct msg ad tag h, hl, push_eq]
+    rw [pushRawOld16_eq_push P hP s ct msg ad tag h, hl, push_eq]
     exact ⟨_, _, rfl⟩
 
-theorem pushRaw_never_panics (P : Prims) (hP : WF P) (s : State) (ct msg ad : Bytes) (tag : UInt8)
-    (h1 : msg.length ≤ STREAM_BODY_MAX) : pushRaw P s ct msg ad tag ≠ .panic := by
-  rw [pushRaw_eq_push P hP s ct msg ad tag h1]
-  unfold push
-  split <;> simp
+/-- what fix E16 changed, exactly: outside the 64-length window the code before the fix IS the current code -/
+theorem pushRawOld16_eq_pushRaw (P : Prims) (hP : WF P) (s : State) (ct msg ad : Bytes) (tag : UInt8)
+    (h : msg.length ≤ STREAM_BODY_MAX ∨ MESSAGEBYTES_MAX_RAW < msg.length) :
+    pushRawOld16 P s ct msg ad tag = pushRaw P s ct msg ad tag := by
+  have hM := MESSAGEBYTES_MAX_RAW_eq
+  have hB := STREAM_BODY_MAX_eq
+  rcases h with h | h
+  · rw [pushRawOld16_eq_push P hP s ct msg ad tag h, pushRaw_eq_push P hP s ct msg ad tag h]
+  · by_cases hm : msg.length + 17 < 2 ^ 64
+    · rw [pushRawOld16_too_long P s ct msg ad tag hm h, pushRaw_err_near_max P s ct msg ad tag hm (by omega)]
+    · unfold pushRawOld16 pushRawBodyOld16 pushRaw pushRawBody
+      rw [pushRawBodyWith_overflow false P s ct msg ad tag (by omega),
+        pushRawBodyWith_overflow true P s ct msg ad tag (by omega)]
 
 /-! ### `DryocStream::push` -/
+
+/-- **`DryocStream::push` as written is the guarded total model**, for every message a slice can hold -/
+theorem objPushRaw_eq_objPushChecked (P : Prims) (hP : WF P) (s : State) (msg ad : Bytes) (tag : UInt8)
+    (hm : msg.length + 17 < 2 ^ 64) :
+    objPushRaw P s msg ad tag = objPushChecked P s msg ad tag := by
+  unfold objPushRaw objPushChecked
+  rw [checkedAdd_ok (by unfold ABYTES; exact hm), ok_bind, pushRaw_eq_pushChecked P hP s _ msg ad tag hm,
+    zeros_length]
 
 theorem objPushRaw_eq_objPush (P : Prims) (hP : WF P) (s : State) (msg ad : Bytes) (tag : UInt8)
     (h1 : msg.length ≤ STREAM_BODY_MAX) :
@@ -213,19 +359,81 @@ theorem objPushRaw_eq_objPush (P : Prims) (hP : WF P) (s : State) (msg ad : Byte
   unfold objPushRaw objPush
   rw [checkedAdd_ok (by unfold ABYTES; omega), ok_bind, pushRaw_eq_push P hP s _ msg ad tag h1, zeros_length]
 
-theorem objPushRaw_panics_near_max (P : Prims) (s : State) (msg ad : Bytes) (tag : UInt8)
-    (h1 : STREAM_BODY_MAX < msg.length) (h2 : msg.length ≤ MESSAGEBYTES_MAX_RAW) :
-    objPushRaw P s msg ad tag = .panic := by
-  have hM := MESSAGEBYTES_MAX_RAW_eq
-  unfold objPushRaw
-  rw [checkedAdd_ok (by unfold ABYTES; omega), ok_bind]
-  exact pushRaw_panics_near_max P s _ msg ad tag (by rw [zeros_length]; rfl) h1 h2
-
-theorem objPushRaw_too_long (P : Prims) (s : State) (msg ad : Bytes) (tag : UInt8)
-    (hm : msg.length + 17 < 2 ^ 64) (h : MESSAGEBYTES_MAX_RAW < msg.length) :
+/-- fixed code (E16): `DryocStream::push` of a message above the limit is an `Err` -/
+theorem objPushRaw_err_near_max (P : Prims) (s : State) (msg ad : Bytes) (tag : UInt8)
+    (hm : msg.length + 17 < 2 ^ 64) (h : STREAM_BODY_MAX < msg.length) :
     objPushRaw P s msg ad tag = .err := by
   unfold objPushRaw
   rw [checkedAdd_ok (by unfold ABYTES; exact hm), ok_bind]
-  exact pushRaw_too_long P s _ msg ad tag hm h
+  exact pushRaw_err_near_max P s _ msg ad tag hm h
+
+theorem objPushRaw_too_long (P : Prims) (s : State) (msg ad : Bytes) (tag : UInt8)
+    (hm : msg.length + 17 < 2 ^ 64) (h : STREAM_BODY_MAX < msg.length) :
+    objPushRaw P s msg ad tag = .err :=
+  objPushRaw_err_near_max P s msg ad tag hm h
+
+/-- **`DryocStream::push` as written cannot panic** on any message a slice can hold -/
+theorem objPushRaw_never_panics (P : Prims) (hP : WF P) (s : State) (msg ad : Bytes) (tag : UInt8)
+    (hm : msg.length + 17 < 2 ^ 64) : objPushRaw P s msg ad tag ≠ .panic := by
+  unfold objPushRaw
+  rw [checkedAdd_ok (by unfold ABYTES; exact hm), ok_bind]
+  exact pushRaw_never_panics P hP s _ msg ad tag hm
+
+/-- `DryocStream::push` as written returns `Ok` exactly for messages of at most `STREAM_BODY_MAX` bytes (above: `Err`;
+for a list no slice can hold: the overflow panic of `len + ABYTES`) -/
+theorem objPushRaw_ok_iff (P : Prims) (hP : WF P) (s : State) (msg ad : Bytes) (tag : UInt8) :
+    (∃ c s', objPushRaw P s msg ad tag = .ok (c, s')) ↔ msg.length ≤ STREAM_BODY_MAX := by
+  have hB := STREAM_BODY_MAX_eq
+  constructor
+  · rintro ⟨c, s', h⟩
+    apply Classical.byContradiction
+    intro hn
+    by_cases hm : msg.length + 17 < 2 ^ 64
+    · rw [objPushRaw_err_near_max P s msg ad tag hm (by omega)] at h; cases h
+    · unfold objPushRaw ABYTES checkedAdd USIZE at h
+      rw [if_neg hm, panic_bind] at h; cases h
+  · intro h
+    rw [objPushRaw_eq_objPush P hP s msg ad tag h]
+    exact ⟨_, _, push_eq P s msg ad tag⟩
+
+/-- pre-fix code (E16): `DryocStream::push` panicked in the 64-length window -/
+theorem objPushRawOld16_panics_near_max (P : Prims) (s : State) (msg ad : Bytes) (tag : UInt8)
+    (h1 : STREAM_BODY_MAX < msg.length) (h2 : msg.length ≤ MESSAGEBYTES_MAX_RAW) :
+    objPushRawOld16 P s msg ad tag = .panic := by
+  have hM := MESSAGEBYTES_MAX_RAW_eq
+  unfold objPushRawOld16
+  rw [checkedAdd_ok (by unfold ABYTES; omega), ok_bind]
+  exact pushRawOld16_panics_near_max P s _ msg ad tag (by rw [zeros_length]; rfl) h1 h2
+
+/-- pre-fix code (E16): alias of `objPushRawOld16_panics_near_max` (old name; about `objPushRawOld16`) -/
+theorem objPushRaw_panics_near_max (P : Prims) (s : State) (msg ad : Bytes) (tag : UInt8)
+    (h1 : STREAM_BODY_MAX < msg.length) (h2 : msg.length ≤ MESSAGEBYTES_MAX_RAW) :
+    objPushRawOld16 P s msg ad tag = .panic :=
+  objPushRawOld16_panics_near_max P s msg ad tag h1 h2
+
+/-! ### push and pull have the same limit (since fix E16) -/
+
+/-- **fixed code (E16): `push` and `pull` accept the same message lengths.**  On a buffer of the right size the
+classic `push` as written returns `Ok` iff the message has at most `STREAM_BODY_MAX` bytes; and the ciphertext
+of an accepted push passes all three LENGTH guards of the classic `pull` as written (into any buffer that can
+hold the message) — indeed `pull` returns the message, the tag byte and the state `push` ended in.  Before the
+fix `pull` compared `ciphertext.len()` with `MESSAGEBYTES_MAX`, so in the guard-only models 17 message lengths
+could be pushed but not pulled (`C03.pushed_but_not_pullable`, now about the `…Old16` models). -/
+theorem push_pull_same_limit (P : Prims) (hP : WF P) (s : State) (buf msg ad : Bytes) (tag : UInt8)
+    (hb : buf.length = msg.length + 17) :
+    ((∃ c s', pushRaw P s buf msg ad tag = .ok (c, s')) ↔ msg.length ≤ STREAM_BODY_MAX) ∧
+    (∀ c s', pushRaw P s buf msg ad tag = .ok (c, s') →
+      ¬ c.length < 17 ∧ ¬ c.length - 17 > STREAM_BODY_MAX ∧
+      ∀ (m : Bytes) (tagv : UInt8), ¬ m.length < c.length - 17 →
+        pullRaw P s m tagv c ad = ⟨.ok msg.length, msg ++ m.drop msg.length, tag, s'⟩) := by
+  refine ⟨pushRaw_ok_iff P hP s buf msg ad tag hb, ?_⟩
+  intro c s' h
+  have hlen : msg.length ≤ STREAM_BODY_MAX := (pushRaw_ok_iff P hP s buf msg ad tag hb).mp ⟨c, s', h⟩
+  rw [pushRaw_eq_push P hP s buf msg ad tag hlen, hb] at h
+  have hcl : c.length = msg.length + 17 := push_ct_length P hP s msg ad tag c s' h
+  refine ⟨by omega, by omega, ?_⟩
+  intro m tagv hm
+  rw [pullRaw_eq_pull P s m tagv c ad (by omega)]
+  exact pull_push P hP s msg ad tag c s' h m tagv (by omega)
 
 end DryocVerif.Proofs.SecretStream
